@@ -222,56 +222,100 @@ def afix_of(a):
     return af.mn or 0
 
 
+def write_files(case, d):
+    d.mkdir(parents=True, exist_ok=True)
+    for name, items in case.get('includes', {}).items():
+        (d / name).write_text(file_text(case, items, False))
+    main = d / 'main.res'
+    main.write_text(file_text(case, case['body'], True))
+    return main
+
+
+def needs_disk(case):
+    return bool(case.get('includes')) or case.get('mode') == 'file'
+
+
+def do_read(shx, case, d):
+    """one read through the public API; -> error text or None"""
+    try:
+        if needs_disk(case):
+            shx.read_file(write_files(case, d))
+        else:
+            shx.read_string(file_text(case, case['body'], True))
+    except Exception as e:
+        return f'{"read_file" if needs_disk(case) else "read_string"} raised {type(e).__name__}'
+    return None
+
+
+def read_obs(shx, case, with_order):
+    """everything C03 observes, read AFTER the parse finished"""
+    atoms = []
+    for a in shx.atoms:
+        try:
+            atoms.append(dict(name=a.name, sfac=a.sfac_num, el=a.element, xyz=[a.x, a.y, a.z], sof=a.sof, u=list(a.uvals),
+                              part=a.part.n, afix=afix_of(a), rnum=a.resinum, rcls=a.resiclass, q=bool(a.qpeak)))
+        except Exception as e:
+            atoms.append(dict(name=getattr(a, 'name', '?'), error=type(e).__name__))
+    views = {}
+    at = shx.atoms
+    for key, fn in [('hydrogens', lambda: [x.name for x in at.hydrogen_atoms]), ('qpeaks', lambda: [x.name for x in at.q_peaks]),
+                    ('riding', lambda: [x.name for x in at.riding_atoms]), ('residues', lambda: sorted(at.residues)),
+                    ('n_aniso', lambda: at.n_anisotropic_atoms), ('n_iso', lambda: at.n_isotropic_atoms),
+                    ('in_class', lambda: [list(at.atoms_in_class(c)) for c in case_classes(case)])]:
+        try:
+            views[key] = fn()
+        except Exception as e:
+            views[key] = f'raise {type(e).__name__}'
+    order = None
+    if with_order:
+        # the instruction sequence the parser ended up with (include lines, blank and continuation lines skipped)
+        order = []
+        for x in shx._reslist:
+            try:
+                s_ = str(x)
+            except Exception:   # printing an object is not what C03 is about (e.g. SFAC table with an element twice)
+                s_ = type(x).__name__.upper().replace('TABLE', '')
+            if not s_.strip() or s_.startswith('+') or (isinstance(x, str) and x.startswith(' ')):
+                continue
+            order.append(s_.split()[0].upper())
+    return dict(atoms=atoms, views=views, order=order)
+
+
 def observe_impl(case):
+    """Runs the read history of the case and observes the atoms of the LAST read.
+    case['history'] = [{'on': 'same' | 'other', 'file': <file case>}…]: earlier reads, on the same Shelxfile object
+    (read_string / read_file re-initialise it) or on another object (module/class level state); after each of them
+    every observable is queried once, so that whatever the library caches is filled. case['final'] == 'reload': the
+    last file replaces the previous one on disk and is read with reload()."""
     from shelxfile import Shelxfile
     shx = Shelxfile()
+    hist = case.get('history') or []
+    reload_ = case.get('final') == 'reload'
     tmp = None
     try:
-        if case.get('includes') or case.get('mode') == 'file':
+        if needs_disk(case) or reload_ or any(needs_disk(s['file']) for s in hist):
             tmp = Path(tempfile.mkdtemp(prefix='verif_c03_'))
-            for name, items in case.get('includes', {}).items():
-                (tmp / name).write_text(file_text(case, items, False))
-            main = tmp / 'main.res'
-            main.write_text(file_text(case, case['body'], True))
+        for i, step in enumerate(hist):
+            obj = shx if step['on'] == 'same' else Shelxfile()
+            if do_read(obj, step['file'], tmp / f'h{i}' if tmp else None) is None:
+                read_obs(obj, step['file'], False)
+        if reload_:
+            first = hist[-1]['file'] if hist else dict(sfac=['C'], body=[['hklf'], ['end']])
+            d = tmp / 'reload'
             try:
-                shx.read_file(main)
+                shx.read_file(write_files(first, d))
+                read_obs(shx, first, False)
+                for f in d.iterdir():
+                    f.unlink()
+                write_files(case, d)
+                shx.reload()
             except Exception as e:
-                return dict(error=f'read_file raised {type(e).__name__}')
+                return dict(error=f'reload raised {type(e).__name__}')
         else:
-            try:
-                shx.read_string(file_text(case, case['body'], True))
-            except Exception as e:
-                return dict(error=f'read_string raised {type(e).__name__}')
-        atoms = []
-        for a in shx.atoms:
-            try:
-                atoms.append(dict(name=a.name, sfac=a.sfac_num, el=a.element, xyz=[a.x, a.y, a.z], sof=a.sof, u=list(a.uvals),
-                                  part=a.part.n, afix=afix_of(a), rnum=a.resinum, rcls=a.resiclass, q=bool(a.qpeak)))
-            except Exception as e:
-                atoms.append(dict(name=getattr(a, 'name', '?'), error=type(e).__name__))
-        views = {}
-        at = shx.atoms
-        for key, fn in [('hydrogens', lambda: [x.name for x in at.hydrogen_atoms]), ('qpeaks', lambda: [x.name for x in at.q_peaks]),
-                        ('riding', lambda: [x.name for x in at.riding_atoms]), ('residues', lambda: sorted(at.residues)),
-                        ('n_aniso', lambda: at.n_anisotropic_atoms), ('n_iso', lambda: at.n_isotropic_atoms),
-                        ('in_class', lambda: [list(at.atoms_in_class(c)) for c in case_classes(case)])]:
-            try:
-                views[key] = fn()
-            except Exception as e:
-                views[key] = f'raise {type(e).__name__}'
-        order = None
-        if tmp is not None:
-            # the instruction sequence the parser ended up with (include lines, blank and continuation lines skipped)
-            order = []
-            for x in shx._reslist:
-                try:
-                    s_ = str(x)
-                except Exception:   # printing an object is not what C03 is about (e.g. SFAC table with an element twice)
-                    s_ = type(x).__name__.upper().replace('TABLE', '')
-                if not s_.strip() or s_.startswith('+') or (isinstance(x, str) and x.startswith(' ')):
-                    continue
-                order.append(s_.split()[0].upper())
-        return dict(atoms=atoms, views=views, order=order)
+            err = do_read(shx, case, tmp / 'final' if tmp else None)
+            if err:
+                return dict(error=err)
+        return read_obs(shx, case, tmp is not None and bool(case.get('includes')))
     finally:
         if tmp is not None:
             shutil.rmtree(tmp, ignore_errors=True)
@@ -307,6 +351,8 @@ def features(case):
         f.add('sfac-several-instructions')
     if any(ins[0] == 'explicit' for ins in sl):
         f.add('sfac-explicit')
+    if case.get('history') or case.get('final') == 'reload':
+        f.add('after-earlier-read')
     if case.get('style'):
         f.add('style:' + '+'.join(k for k, v in sorted(case['style'].items()) if v))
     opened = dict(part=False, afix=False, resi=False)
@@ -384,11 +430,21 @@ def view_expect(case, info, ref):
     return res
 
 
+def history_text(case):
+    if not (case.get('history') or case.get('final') == 'reload'):
+        return ''
+    steps = [('same object' if s['on'] == 'same' else 'another object') + ' read [' + ' / '.join(sfac_text(s['file'])) + ' …]'
+             for s in case.get('history', [])]
+    return '   {after: ' + '; '.join(steps) + ('; last read by reload()' if case.get('final') == 'reload' else '') + '}'
+
+
 def signature(case, attr, pos):
     feats = sorted(features(case))
     rel = [f for f in feats if (attr in ('part', 'sof') and f.startswith('part-open')) or (attr == 'afix' and f.startswith('afix-open'))
            or (attr in ('rnum', 'rcls') and f.startswith('resi-open')) or (attr == 'atomlist' and f in ('frag', 'include'))
            or (attr == 'q' and f.endswith('open-at-hklf')) or (attr == 'el' and f.startswith('sfac-'))]
+    if 'after-earlier-read' in feats:
+        rel.append('after-earlier-read')
     return f'C03|{attr}|{pos}|' + ('+'.join(rel) if rel else 'plain')
 
 
@@ -432,7 +488,9 @@ def shrink(case, attr, pos, budget=120):
         except Exception:
             return False
     cur = case
-    for simpler in (lambda c: {k: v for k, v in c.items() if k != 'style'},
+    for simpler in (lambda c: {k: v for k, v in c.items() if k not in ('history', 'final')},
+                    lambda c: dict(c, history=c['history'][-1:]) if len(c.get('history') or []) > 1 else c,
+                    lambda c: {k: v for k, v in c.items() if k != 'style'},
                     lambda c: {k: v for k, v in c.items() if k != 'sfac_lines'},
                     lambda c: dict(c, sfac_lines=[ins[:2] for ins in sfac_lines(c)])):
         c2 = simpler(cur)
@@ -486,7 +544,7 @@ def evaluate(ctx, cases, stream=None):
         feats = features(case)
         obs = observe_impl(case)
         n_atoms = len(spec)
-        ctx.count(['atoms', sfac_lines(case), case.get('style'), case['body'], case.get('includes')], nontrivial=n_atoms > 0 and len(feats) > 0,
+        ctx.count(['atoms', sfac_lines(case), case.get('style'), case['body'], case.get('includes'), case.get('history'), case.get('final')], nontrivial=n_atoms > 0 and len(feats) > 0,
                   tags=['valid' if ans['valid'] else 'outside-domain', f'atoms={min(n_atoms, 10)}'] + sorted(feats),
                   sample=dict(stream='atoms', text=file_text(case, case['body'], True).splitlines()[6:18],
                               impl=[[a.get('name'), a.get('part'), a.get('afix'), a.get('rnum'), a.get('rcls'), a.get('sof'), a.get('q')]
@@ -509,7 +567,7 @@ def evaluate(ctx, cases, stream=None):
                     sm_ans = ctx.driver.one(sm_req)
                     sm_obs = observe_impl(small)
                     sm_msg = next((m for a_, p_, m in compare_atoms(small, sm_info, sm_obs.get('atoms', []), sm_ans['spec'], 'el_spec') if a_ == attr), msg)
-                ctx.fail(signature(small, attr, pos), sm_msg + '   [' + ('' if len(sfac_lines(small)) == 1 and sfac_lines(small)[0][0] == 'elems' else ' / '.join(sfac_text(small)) + ' ... ') + 'body: ' + ' / '.join(file_text(small, small['body'], False).splitlines()) + ']',
+                ctx.fail(signature(small, attr, pos), sm_msg + history_text(small) + '   [' + ('' if len(sfac_lines(small)) == 1 and sfac_lines(small)[0][0] == 'elems' else ' / '.join(sfac_text(small)) + ' ... ') + 'body: ' + ' / '.join(file_text(small, small['body'], False).splitlines()) + ']',
                          dict(case=small, stream='atoms', expected=sm_ans['spec'], actual=sm_obs.get('atoms'), model=sm_ans['model'],
                               model_of_code_before_fixes=sm_ans['before_fix']))
         for attr, pos, msg in compare_atoms(case, info, obs['atoms'], model, 'el'):
@@ -682,13 +740,33 @@ class Builder:
 
 
 def make_case(rng):
-    nel = rng.randint(1, 5)
-    sfac = rng.sample(gen.ELEMENTS, nel)
-    if rng.random() < 0.7 and 'H' not in sfac:
-        sfac[rng.randrange(nel)] = rng.choice(['H', 'H', 'D'])
-    sfac = [rng.choice([e, e.upper(), e.lower()]) for e in sfac]
-    if nel >= 2 and rng.random() < 0.1:          # the same element twice (two scattering factors for one element)
-        sfac[rng.randrange(1, nel)] = sfac[0]
+    """a file, in a quarter of the cases read after one or two other files (same object / another object / reload)"""
+    case = make_file(rng)
+    if rng.random() < 0.25:
+        hist = []
+        for _ in range(rng.choice([1, 1, 2])):
+            sf = None
+            if len(case['sfac']) >= 2 and rng.random() < 0.6:     # the same elements in another order
+                sf = list(case['sfac'])
+                while sf == case['sfac'] and len(set(sf)) > 1:
+                    rng.shuffle(sf)
+            hist.append(dict(on=rng.choice(['same', 'same', 'same', 'other']), file=make_file(rng, sf, small=True)))
+        case['history'] = hist
+        if rng.random() < 0.3:
+            case['final'] = 'reload'
+    return case
+
+
+def make_file(rng, sfac=None, small=False):
+    if sfac is None:
+        nel = rng.randint(1, 5)
+        sfac = rng.sample(gen.ELEMENTS, nel)
+        if rng.random() < 0.7 and 'H' not in sfac:
+            sfac[rng.randrange(nel)] = rng.choice(['H', 'H', 'D'])
+        sfac = [rng.choice([e, e.upper(), e.lower()]) for e in sfac]
+        if nel >= 2 and rng.random() < 0.1:          # the same element twice (two scattering factors for one element)
+            sfac[rng.randrange(1, nel)] = sfac[0]
+    nel = len(sfac)
     b = Builder(rng, sfac)
     body = []
     includes = {}
@@ -714,7 +792,7 @@ def make_case(rng):
                 includes[name] = block(rng.randint(1, 5), depth + 1)
         return items
 
-    body += block(rng.randint(2, 12))
+    body += block(rng.randint(2, 5 if small else 12))
     closing = rng.random()
     if closing < 0.5:      # close everything before HKLF, as SHELXL writes it
         body += [['afix', 0], ['part', 0, None], ['resi', '', 0, 'n', 0, None]][:rng.randint(0, 3)]
@@ -774,6 +852,12 @@ ALPHABET = [['part', 2, 31.0], ['part', 0, None], ['afix', 43], ['afix', 0], ['r
             ['resi', '', 0, 'n', 0, None], ['hklf']]
 
 
+# read before a third of the enumerated files: other SFAC order, everything left open
+EARLIER = dict(sfac=['O', 'H', 'C'], body=[['resi', 'BNZ', 7, 'cn', 0, None], ['part', 1, 41.0], ['afix', 137],
+                                           ['atom', 'O9', 1, [0.3, 0.3, 0.3], 11.0, [0.05], False], ['atom', 'H9', 2, [0.4, 0.3, 0.3], 11.0, [-1.5], False],
+                                           ['atom', 'C9', 3, [0.5, 0.3, 0.3], 11.0, [0.04], False], ['hklf'], ['end']])
+
+
 def enum_case(seq, gaps):
     """seq: tuple of alphabet indices, gaps: sorted positions (0..len(seq)) of the three atoms"""
     body = []
@@ -802,6 +886,10 @@ def enum_case(seq, gaps):
         case['sfac_lines'] = layout
     if (sum(seq) + 2 * sum(gaps)) % 5 == 0:
         case['style'] = dict(kw=True, num=True, cmt=True)
+    if (len(seq) + sum(seq) + sum(gaps)) % 3 == 0:
+        case['history'] = [dict(on='same', file=EARLIER)]
+        if sum(gaps) % 2:
+            case['final'] = 'reload'
     return case
 
 
@@ -827,7 +915,7 @@ def run(ctx):
     ctx.rule = ('generated files: SFAC table of 1..5 elements in any order and case, spelled with one or several SFAC instructions of both forms (element list / explicit coefficients, wrapped or not), optionally an element twice; keywords in upper/lower/title case, numbers as 5 decimals / shortest / exponent, trailing ! comments, five HKLF forms; 2..12 body items drawn from atoms (iso / aniso wrapped or not / '
                 'riding hydrogens, own occupation code or 11), PART n [sof], AFIX mn, RESI in seven token orders, FRAG..FEND blocks, '
                 '+include files (nested up to 2, on disk), other instructions; contexts closed or left open at HKLF; peaks between HKLF and END '
-                'and after END (+WGHT); distinct by (SFAC, items); non-trivial = at least one atom and at least one of: context left open at HKLF, '
+                'and after END (+WGHT); a quarter of the files is the LAST of a read history (1-2 earlier files with the same elements in another SFAC order or an unrelated file, read by the same object or another one, every observable queried in between; last read by read_string / read_file / reload() after the file changed on disk); distinct by (SFAC, items); non-trivial = at least one atom and at least one of: context left open at HKLF, '
                 'FRAG block, include, peaks, anisotropic atom. Thorough: every sequence of <= 4 context instructions from a 7-letter alphabet '
                 '(PART 2 31 / PART 0 / AFIX 43 / AFIX 0 / RESI TOL 3 / RESI 0 / HKLF) with 3 atoms in every gap placement, and every sequence of 5 and 6 '
                 'with the atoms spread.')
